@@ -53,7 +53,7 @@ pub fn mentions_ident(b: &syn::Block, id: &str) -> bool {
     go(b.to_token_stream(), id)
 }
 struct Binders<'b>(&'b mut BTreeSet<String>);
-impl<'a, 'b> Visit<'a> for Binders<'b> { fn visit_pat_ident(&mut self, p: &'a syn::PatIdent) { self.0.insert(p.ident.to_string()); if let Some((_, sub)) = &p.subpat { self.visit_pat(sub); } } }
+impl<'a, 'b> Visit<'a> for Binders<'b> { fn visit_pat_ident(&mut self, p: &'a syn::PatIdent) { if !p.ident.to_string().chars().next().map(|c| c.is_uppercase()).unwrap_or(false) { self.0.insert(p.ident.to_string()); } if let Some((_, sub)) = &p.subpat { self.visit_pat(sub); } } }
 pub fn collect_binders_sig(sig: &syn::Signature) -> BTreeSet<String> {
     let mut s = BTreeSet::new();
     for inp in &sig.inputs { if let syn::FnArg::Typed(pt) = inp { Binders(&mut s).visit_pat(&pt.pat); } }
@@ -76,7 +76,7 @@ pub fn inline_tail_async(b: &mut syn::Block, cx: &mut Ctx) {
 pub fn collect_binders_block(b: &syn::Block, s: &mut BTreeSet<String>) {
     struct All<'b>(&'b mut BTreeSet<String>);
     impl<'a, 'b> Visit<'a> for All<'b> {
-        fn visit_pat_ident(&mut self, p: &'a syn::PatIdent) { self.0.insert(p.ident.to_string()); if let Some((_, sub)) = &p.subpat { self.visit_pat(sub); } }
+        fn visit_pat_ident(&mut self, p: &'a syn::PatIdent) { if !p.ident.to_string().chars().next().map(|c| c.is_uppercase()).unwrap_or(false) { self.0.insert(p.ident.to_string()); } if let Some((_, sub)) = &p.subpat { self.visit_pat(sub); } }
         fn visit_macro(&mut self, m: &'a syn::Macro) {
             // select! arm patterns
             if is_select(m) { if let Ok(arms) = syn::parse2::<Arms>(m.tokens.clone()) { for a in arms.0 { if let Some(p) = &a.pat { self.visit_pat(p); } self.visit_expr(&a.body); } } }
@@ -476,7 +476,7 @@ impl<'c> VisitMut for Rw<'c> {
         // ---------------- pre-order ----------------
         if let Expr::Macro(m) = e {
             if is_select(&m.mac) { if let Some(n) = self.select_to_match(&m.mac) { *e = n; } }
-            else if is_panic(&m.mac) { self.cx.fire("M1"); *e = parse_quote!(vpanic()); }
+            else if is_panic(&m.mac) { self.cx.fire("M1"); *e = if self.cx.unit.panic_forbidden { parse_quote!(vpanic_forbidden()) } else { parse_quote!(vpanic()) }; }
             else if is_pin_macro(&m.mac) { self.cx.fire("D4"); if let Ok(inner) = syn::parse2::<Expr>(m.mac.tokens.clone()) { *e = inner; } }
             else if is_dropped_macro(&m.mac) { self.cx.fire("D1"); *e = parse_quote!(()); }
             else { self.cx.err(format!("outside dialect: macro `{}` in {}", nospace(&m.mac.path.to_token_stream().to_string()), self.fn_name)); }
@@ -527,6 +527,8 @@ impl<'c> VisitMut for Rw<'c> {
                 self.cx.fire("T1"); *e = parse_quote!(#inner.clone());
             }
         }
+        // `on x m => n`: method m on the local x is the traced variant n
+        if let Expr::MethodCall(m) = e { if let Expr::Path(p) = &*m.receiver { if let Some(id) = p.path.get_ident() { let (rn, mn) = (id.to_string(), m.method.to_string()); for (a, b, c) in self.cx.unit.onrecv.clone() { if a == rn && b == mn { m.method = syn::Ident::new(&c, m.method.span()); } } } } }
         // I1: `.into()` on a parameter declared `impl Into<T>` (extracted as `T`)
         if let Expr::MethodCall(m) = e { if m.method == "into" && m.args.is_empty() { if let Expr::Path(p) = &*m.receiver { if let Some(id) = p.path.get_ident() { if self.into_params.contains(&id.to_string()) { let r = (*m.receiver).clone(); self.cx.fire("I1"); *e = r; } } } } }
         // T3: `m.entry(k).or_default().push(v)` -> `m.push_at(k, v)`
@@ -573,6 +575,8 @@ impl<'c> VisitMut for Rw<'c> {
                 } } }
             } } }
         }
+        // M1: `std::panic::resume_unwind(..)` / `panic_any(..)` panic
+        if let Expr::Call(c) = e { let f = nospace(&c.func.to_token_stream().to_string()); if matches!(f.as_str(), "std::panic::resume_unwind" | "panic::resume_unwind" | "resume_unwind" | "std::panic::panic_any" | "panic_any") { self.cx.fire("M1"); *e = if self.cx.unit.panic_forbidden { parse_quote!(vpanic_forbidden()) } else { parse_quote!(vpanic()) }; return; } }
         // D5: `drop(e)` / `std::mem::drop(e)` ends the value's life here
         if let Expr::Call(c) = e { let f = nospace(&c.func.to_token_stream().to_string()); if c.args.len() == 1 && matches!(f.as_str(), "drop" | "std::mem::drop" | "mem::drop") { let a = c.args[0].clone(); self.cx.fire("D5"); *e = parse_quote!(vdrop(#a)); } }
         // T4: to_owned on Clone types is clone
@@ -601,19 +605,24 @@ impl<'c> VisitMut for Rw<'c> {
             };
             let name = format!("{}__{}{}", self.lift_prefix, if is_async { "async" } else { "closure" }, k);
             let ctor = ident(&format!("{}__new", name));
-            let args: Vec<Expr> = caps.iter().map(|c| { let id = ident(if self.self_to_this && c == "self" { "this" } else { c }); if is_move { parse_quote!(#id) } else { parse_quote!(&#id) } }).collect();
+            // when places of `self` are captured disjointly, a bare `self` seen in macro tokens is not a capture of its own
+            let caps: Vec<String> = if caps.iter().any(|c| c.starts_with("self.")) { caps.into_iter().filter(|c| c != "self").collect() } else { caps };
+            let args: Vec<Expr> = caps.iter().map(|c| {
+                let place: Expr = if let Some(f) = c.strip_prefix("self.") { let fi = ident(f); if self.self_to_this { parse_quote!(this.#fi) } else { parse_quote!(self.#fi) } }
+                                  else { let id = ident(if self.self_to_this && c == "self" { "this" } else { c }); parse_quote!(#id) };
+                if is_move { place } else { parse_quote!(&#place) } }).collect();
             self.cx.fire(if is_async { "A3" } else { "L1" });
             let cap_types: Vec<Option<String>> = caps.iter().map(|c| self.local_types.get(c).cloned()).collect();
             self.lifted_closures.push(LiftedClosure { cap_types, k, name, captures: caps, is_move, inputs, body, is_async_block: is_async, line });
             let cname = ctor.to_string();
-            let any_typed = self.lifted_closures.last().map(|l| l.captures.iter().any(|c| self.typed_caps.contains(&format!("{} {}", cname, c)))).unwrap_or(false);
+            let any_typed = self.lifted_closures.last().map(|l| l.captures.iter().any(|c| self.typed_caps.contains(&format!("{} {}", cname, c.replace("self.", "self_"))))).unwrap_or(false);
             if self.typed_ctors.contains(&cname) && !self.gen_idents.is_empty() {
                 let gi: Vec<syn::Ident> = self.gen_idents.iter().map(|g| ident(g)).collect();
                 *e = parse_quote!(#ctor::<#(#gi),*>(#(#args),*));
             } else if any_typed {
                 // enclosing generics explicitly, one `_` per capture whose type stays generic
                 let gi: Vec<syn::Ident> = self.gen_idents.iter().map(|g| ident(g)).collect();
-                let n_generic = self.lifted_closures.last().unwrap().captures.iter().filter(|c| !self.typed_caps.contains(&format!("{} {}", cname, c))).count();
+                let n_generic = self.lifted_closures.last().unwrap().captures.iter().filter(|c| !self.typed_caps.contains(&format!("{} {}", cname, c.replace("self.", "self_")))).count();
                 let holes: Vec<TokenStream> = (0..n_generic).map(|_| quote!(_)).collect();
                 *e = parse_quote!(#ctor::<#(#gi,)* #(#holes),*>(#(#args),*));
             } else { *e = parse_quote!(#ctor(#(#args),*)); }
@@ -750,10 +759,20 @@ fn binders_of(p: &syn::Pat) -> BTreeSet<String> { let mut s = BTreeSet::new(); B
 impl Free {
     fn is_bound(&self, n: &str) -> bool { self.bound.iter().any(|s| s.contains(n)) }
     fn use_(&mut self, n: String) { if !self.is_bound(&n) && !self.free.contains(&n) { self.free.push(n); } }
-    fn tokens(&mut self, ts: TokenStream) { for t in ts { match t { TokenTree::Ident(i) => { let s = i.to_string(); if s.chars().next().map(|c| c.is_lowercase() || c == '_').unwrap_or(false) { self.use_(s); } } TokenTree::Group(g) => self.tokens(g.stream()), _ => {} } } }
+    fn tokens(&mut self, ts: TokenStream) {
+        let v: Vec<TokenTree> = ts.clone().into_iter().collect();
+        for i in 0..v.len() { if let TokenTree::Ident(id) = &v[i] { if id == "self" { if let (Some(TokenTree::Punct(p)), Some(TokenTree::Ident(f))) = (v.get(i + 1), v.get(i + 2)) { if p.as_char() == '.' { self.use_(format!("self.{}", f)); } } } } }
+        self.tokens_inner(ts)
+    }
+    fn tokens_inner(&mut self, ts: TokenStream) { for t in ts { match t { TokenTree::Ident(i) => { let s = i.to_string(); if s.chars().next().map(|c| c.is_lowercase() || c == '_').unwrap_or(false) { self.use_(s); } } TokenTree::Group(g) => self.tokens(g.stream()), _ => {} } } }
 }
 impl<'a> Visit<'a> for Free {
     fn visit_expr_path(&mut self, p: &'a syn::ExprPath) { if let Some(i) = p.path.get_ident() { self.use_(i.to_string()); } }
+    // Rust 2021 disjoint capture: `self.field` captures that place only
+    fn visit_expr_field(&mut self, f: &'a syn::ExprField) {
+        if let Expr::Path(p) = &*f.base { if p.path.is_ident("self") { if let syn::Member::Named(n) = &f.member { self.use_(format!("self.{}", n)); return; } } }
+        syn::visit::visit_expr_field(self, f);
+    }
     fn visit_macro(&mut self, m: &'a syn::Macro) { if !is_dropped_macro(m) { self.tokens(m.tokens.clone()); } }
     fn visit_expr_struct(&mut self, s: &'a syn::ExprStruct) {
         for f in &s.fields { self.visit_expr(&f.expr); }
@@ -788,11 +807,11 @@ impl<'a> Visit<'a> for Free {
 }
 pub fn captures_of_closure(c: &syn::ExprClosure, scope: &BTreeSet<String>) -> Vec<String> {
     let mut fv = Free { bound: vec![], free: vec![] }; fv.visit_expr_closure(c);
-    fv.free.into_iter().filter(|n| scope.contains(n) || n == "self").collect()
+    fv.free.into_iter().filter(|n| scope.contains(n) || n == "self" || n.starts_with("self.")).collect()
 }
 pub fn captures_of_block(b: &syn::Block, scope: &BTreeSet<String>) -> Vec<String> {
     let mut fv = Free { bound: vec![], free: vec![] }; fv.visit_block(b);
-    fv.free.into_iter().filter(|n| scope.contains(n) || n == "self").collect()
+    fv.free.into_iter().filter(|n| scope.contains(n) || n == "self" || n.starts_with("self.")).collect()
 }
 
 // ------------------------------------------------------------------------------------------
